@@ -18,7 +18,7 @@ def main():
     c.correspond("asn1ids")
     c.correspond("idsession")
     return c.finish(
-        rule="exhaustive over all 65 536 senders (x rounds x digests in thorough); views: all boundary singletons/pairs/triples over "
+        rule="idsession: whole sessions (key generation + two-of-three signing through real Schemes, synchroniser, reliable broadcast, BLS backend) with node = party identifiers {0,1,2}, {0,255,256}, {254,255,511}, {32767,32768,65535}, {0,300,65535} against the control {1,2,3}. exhaustive over all 65 536 senders (x rounds x digests in thorough); views: all boundary singletons/pairs/triples over "
              "{0,1,254,255,256,257,511,512,32767,32768,65279,65280,65534,65535} plus PRNG views; arbitrary byte strings into both decoders; "
              "a case is one distinct operation line; all are non-trivial (each exercises encode+decode or a decoder guard)",
         trusted=TRUSTED, assumptions=ASSUME,
